@@ -160,7 +160,9 @@ def run_job(job, base_id):
     model, c = job["model"], job["cfg"]
     rc = dict(is_rgb=c["is_rgb"], max_hw=tuple(c["max_hw"]), scale=c["sn"] / c["sd"], max_stride=c["max_stride"], sigma=c["sigma"],
               output_stride=c["output_stride"], anchor=c["anchor"], crop_hw=(c["crop"], c["crop"]), paf_sigma=c["paf_sigma"],
-              paf_stride=c["paf_stride"], user_only=c.get("user_only", True))
+              paf_stride=c["paf_stride"], user_only=c.get("user_only", True),
+              # every second job reads the npz chunks through a SECOND dataset object built with use_existing_chunks=True
+              reuse_chunks=lambda: build_labels(job) if job["jid"] % 2 else None)
     outs, raised = {}, []
     for fw in fu.FRAMEWORKS:
         try:
